@@ -142,6 +142,15 @@ Section Sim.
       intros [= <-]. cbn [forallb]. rewrite (try_path_inr v x Hv Ex), (IH xs' Hl eq_refl). reflexivity.
   Qed.
 
+  Lemma coerce_tuple_sim l : forallb pf_static l = true -> coerce_tuple pfA l = coerce_tuple pfB l.
+  Proof.
+    induction l as [|v l IH]; cbn [forallb coerce_tuple]; [reflexivity|].
+    intros H. apply andb_true_iff in H as [Hv Hl]. rewrite !pf_static_spec by exact Hv. rewrite (IH Hl). reflexivity.
+  Qed.
+
+  Lemma forallb_inr_map_items (l : list pyval) : forallb (@is_inr (pathterm pyval) pyval) (map inr l) = true.
+  Proof. induction l as [|v l IH]; [reflexivity|]. cbn [map forallb is_inr]. exact IH. Qed.
+
   Lemma coerce_kvs_sim d : forallb pf_static (map snd d) = true -> coerce_kvs pfA d = coerce_kvs pfB d.
   Proof.
     induction d as [|[k v] d IH]; cbn [map snd forallb coerce_kvs]; [reflexivity|].
@@ -173,7 +182,7 @@ Section Sim.
       [cbn [coerce]; reflexivity|cbn [coerce]; reflexivity|cbn [coerce]; reflexivity|cbn [coerce]; reflexivity
       |cbn [coerce]; reflexivity| | | |cbn [coerce]; reflexivity|cbn [coerce]; reflexivity].
     - cbn [coerce]. rewrite (coerce_items_sim l H). reflexivity.
-    - cbn [coerce]. rewrite (coerce_items_sim l H). reflexivity.
+    - cbn [coerce]. rewrite (coerce_tuple_sim l H). reflexivity.
     - apply andb_true_iff in H as [Hs Hd]. unfold coerce.
       rewrite !pf_static_spec by exact Hs. rewrite (coerce_kvs_sim d Hd). reflexivity.
   Qed.
@@ -191,8 +200,8 @@ Section Sim.
       |cbn [coerce]; intros [= <-]; apply Hval|cbn [coerce]; intros [= <-]; apply Hval].
     - cbn [coerce]. destruct (coerce_items pfB l) as [xs|e] eqn:E; cbn [bind]; [|discriminate].
       intros [= <-]. exact (coerce_items_inr l xs H E).
-    - cbn [coerce]. destruct (coerce_items pfB l) as [xs|e] eqn:E; cbn [bind]; [|discriminate].
-      destruct (existsb _ xs); [discriminate|]. intros [= <-]. exact (coerce_items_inr l xs H E).
+    - cbn [coerce]. destruct (coerce_tuple pfB l) as [[]|e] eqn:E; cbn [bind]; [|discriminate].
+      intros [= <-]. cbn [cv_lit]. apply forallb_inr_map_items.
     - apply andb_true_iff in H as [Hs Hd]. unfold coerce. rewrite pf_static_spec by exact Hs.
       destruct (pf_res (VDict d)) as [y|e] eqn:E.
       + pose proof (pf_res_inr _ y E) as Hy. destruct y as [p|w]; [discriminate Hy|].
